@@ -30,7 +30,8 @@ impl<V> FlexChild<V> {
 
     pub fn flex(self, flex: f64) -> Self {
         Self {
-            flex: Some(flex),
+            // only positive factors make a flex child (same rule as `Flex::push_child_ext`)
+            flex: (flex > 0.0).then_some(flex),
             ..self
         }
     }
@@ -275,7 +276,11 @@ impl<'a> Flex<'a> {
                             align: Align::default(),
                         })
                     } else {
-                        let flex = value.get("flex").map(f64::deserialize).transpose()?;
+                        let flex = value
+                            .get("flex")
+                            .map(f64::deserialize)
+                            .transpose()?
+                            .and_then(|flex| (flex > 0.0).then_some(flex));
                         let align = value
                             .get("align")
                             .map(Align::deserialize)
@@ -391,7 +396,8 @@ pub fn flex_layout(
                     let child_minor = direction.minor(child_layout.size());
 
                     // update counters
-                    major_remain -= child_major;
+                    // child can take more than its share (it is not obliged to honour constraints)
+                    major_remain = major_remain.saturating_sub(child_major);
                     major_flex += child_major;
                     minor = max(minor, child_minor);
                 }
@@ -422,7 +428,7 @@ pub fn flex_layout(
                 (space, space)
             }
             Justify::SpaceAround => {
-                let space = unused / children.len();
+                let space = unused / children.len().max(1);
                 (space / 2, space)
             }
         }
